@@ -5242,3 +5242,13 @@ T('C18', 'twin-intended-recipient-one-shared-call', PGP, _IR,
   "                recipient_fpr = intended_recipient.fingerprint\n            elif isinstance(intended_recipient, Fingerprint):\n                recipient_fpr = intended_recipient\n            else:\n                warnings.warn(\"Intended Recipient is not a PGPKey, ignoring\")\n                continue\n\n            sig._signature.subpackets.addnew('IntendedRecipient', hashed=True, version=4,\n                                             intended_recipient=recipient_fpr)\n")
 M('C18', 'intended-recipient-shared-call-one-arm-derived', PGP, _IR,
   "                recipient_fpr = (intended_recipient.parent or intended_recipient).fingerprint\n            elif isinstance(intended_recipient, Fingerprint):\n                recipient_fpr = intended_recipient\n            else:\n                warnings.warn(\"Intended Recipient is not a PGPKey, ignoring\")\n                continue\n\n            sig._signature.subpackets.addnew('IntendedRecipient', hashed=True, version=4,\n                                             intended_recipient=recipient_fpr)\n", 'C18.7')
+
+# ---- wave 6
+M('C14', 'llen-widening-strict', TY, "            while 0 < llen < 4 and self.length >= (1 << (8 * llen)):", "            while 0 < llen < 4 and self.length > (1 << (8 * llen)):", 'C14.8')
+M('C14', 'armor-crc-width-dropped', TY, "PGPObject.int_to_bytes(self.crc24(self.__bytes__()), 3)", "PGPObject.int_to_bytes(self.crc24(self.__bytes__()))", 'C14.8')
+M('C14', 'userid-fallback-forgotten', PK, "            self.uid = uid_bytes.decode('charmap')\n            self._encoding_fallback = True\n", "            self.uid = uid_bytes.decode('charmap')\n", 'C14.8')
+M('C14', 'userid-fallback-latin-replace', PK, "            self.uid = uid_bytes.decode('charmap')\n            self._encoding_fallback = True\n", "            self.uid = uid_bytes.decode('utf-8', 'replace')\n", 'C14.8')
+T('C14', 'twin-userid-fallback-flag-first', PK, "            self.uid = uid_bytes.decode('charmap')\n            self._encoding_fallback = True\n", "            self._encoding_fallback = True\n            self.uid = uid_bytes.decode('charmap')\n")
+M('C20', 'new-contents-by-reference', PGP, "            lit._contents = bytearray(msg.text_to_bytes(message))\n", "            lit._contents = msg.text_to_bytes(message)\n", 'C20.6')
+T('C20', 'twin-new-contents-temporary-copy', PGP, "            lit._contents = bytearray(msg.text_to_bytes(message))\n", "            octets = msg.text_to_bytes(message)\n            lit._contents = bytearray(octets)\n")
+M('C20', 'new-contents-charset-hint', PGP, "            lit._contents = bytearray(msg.text_to_bytes(message))\n", "            lit._contents = bytearray(msg.text_to_bytes(message).decode('utf-8').encode(charset or 'utf-8')) if charset else bytearray(msg.text_to_bytes(message))\n", 'C20.6')
